@@ -119,7 +119,7 @@ def run(chk):
     chk.cov["crash_points"] = npoints
     eintr = []
     for setup, op, tail in eintr_scenarios():
-        eintr += ipc.eintr_cases(setup, op, tail, counts=(1, 2, 3, 4, 5, 6) if thorough else (1, 2, 6))
+        eintr += ipc.eintr_cases(setup, op, tail, counts=(1, 2, 3, 4, 5, 6, 150, 1000) if thorough else (1, 2, 6, 150))
     chk.cov["eintr_cases"] = len(eintr)
     races = [ipc.prefilter(c) for c in race_cases(rng, thorough)]
     chk.cov["race_schedules"] = len(races)
